@@ -18,7 +18,7 @@ suite=pass
 (cd "$tmp/repo" && go test -vet=off -count=1 ./... >/dev/null 2>&1) || { (cd "$tmp/repo" && go test -vet=off -count=1 ./... >/dev/null 2>&1) || suite=FAIL; }
 noisy=""
 for p in "$@"; do
-  out=$(GOFLAGS=-mod=vendor "$here/bin/kxcheck" -prop "$p" -repo "$tmp/repo" -verif "$tmp/verif" 2>&1)
+  out=$(GOFLAGS=-mod=vendor "${KX_BIN:-$here/bin/kxcheck}" -prop "$p" -repo "$tmp/repo" -verif "$tmp/verif" 2>&1)
   rc=$?
   if [ $rc != 0 ]; then
     noisy="$noisy $p"
